@@ -15,9 +15,14 @@ Core == { U("Meters"), U("Feet"), U("Seconds"), U("Minutes"), U("Hertz"), U("Gra
           U("Unos"), U("Percent"), U("Bits"), U("Newtons"), U("Joules"), U("Amperes"), U("Moles"), U("Candelas"),
           Mul(U("Meters"), U("Meters")), Div(U("Meters"), U("Seconds")), PowE(U("Meters"), 1, 2), PowE(U("Seconds"), -1, 1), PowE(U("Meters"), 3, 2), PowE(U("Seconds"), -1, 2), PowE(U("Feet"), 2, 3), PowE(U("Hertz"), 1, 2), PowE(U("Feet"), 1, 2), PowE(Pf("kilo", U("Hertz")), 1, 2),
           Sc(U("Feet"), <<BP(6, 1, 1)>>), Pf("kilo", U("Meters")), Div(U("Joules"), U("Newtons")), Mul(U("Hertz"), U("Seconds")) }
+BaseUnits == <<"Meters", "Grams", "Seconds", "Amperes", "Kelvins", "Moles", "Candelas", "Radians", "Bits">>
+BaseQuot == {Div(U(BaseUnits[i]), U(BaseUnits[j])) : i, j \in 1..Len(BaseUnits)} \ {Div(U(BaseUnits[i]), U(BaseUnits[i])) : i \in 1..Len(BaseUnits)}
 Exprs == IF Tier = "quick" THEN Core ELSE Core \cup {U(i) : i \in CatIds}
+\* pairs supplied by the engine (inputs only: the verdict below is still TLC's): a quotient x / y of library units against the unit that
+\* would have the same dimension if two of the base dimensions in it were one and the same
+ExtraPairs == IF "EXTRA" \in DOMAIN IOEnv /\ IOEnv.EXTRA # "" THEN LET x == ndJsonDeserialize(IOEnv.EXTRA) IN {<<x[i].e1, x[i].e2>> : i \in 1..Len(x)} ELSE {}
 VARIABLES e1, e2
-Init == e1 \in Exprs /\ e2 \in Exprs
+Init == (e1 \in Exprs /\ e2 \in Exprs) \/ (e1 \in BaseQuot /\ e2 = U("Unos")) \/ (\E p \in ExtraPairs : e1 = p[1] /\ e2 = p[2])
 Next == UNCHANGED <<e1, e2>>
 SameDim(a, b) == DenDim(a) = DenDim(b)
 Emit == PrintT(<<"CASE", ToJson([e1 |-> e1, e2 |-> e2, samedim |-> SameDim(e1, e2), inv_samedim |-> SameDim(e1, PowE(e2, -1, 1)), samemag |-> DenMag(e1) = DenMag(e2),
